@@ -19,7 +19,7 @@ ASSUMPTIONS = ["difflib is excluded from the exact clause (b): it may pick a non
                "repeated substrings; the statement demands only monotone/in-range of it",
                "forced alignment relies on the inserted characters not occurring in the plain alphabet (asserted per case)"]
 FLOORS = {"quick": {"nosrc_cases": 3000, "nosrc_annotations_checked": 4000, "forced_cases": 5000,
-                    "forced_annotations": 5000, "adjacent_left": 500, "adjacent_right": 500,
+                    "forced_annotations": 5000, "periodic_cases": 1500, "adjacent_left": 500, "adjacent_right": 500,
                     "touching_pairs": 300, "updater_pairs:dmp": 1500, "updater_pairs:difflib": 1500,
                     "updater_offsets_swept": 100000, "multi_range_pairs": 2000},
           "thorough": {"nosrc_cases": 150000, "forced_cases": 300000, "adjacent_left": 30000,
@@ -83,8 +83,13 @@ def check_nosrc(p, anns, out, rec, case):
 
 def forced(rng, rec):
     from eyecite import annotate_citations
-    p = A.plain_text(rng, 1, 40)
-    s, pos = A.source_from(rng, p, rate=rng.choice([0.05, 0.15, 0.3]))
+    if rng.random() < 0.3:
+        p = A.periodic_text(rng)
+        s, pos = A.source_from(rng, p, rate=rng.choice([0.02, 0.05, 0.1]))
+        rec.count("periodic_cases")
+    else:
+        p = A.plain_text(rng, 1, 40)
+        s, pos = A.source_from(rng, p, rate=rng.choice([0.05, 0.15, 0.3]))
     if s == p:
         return
     assert not (set("".join(A.INS)) & set(p))
